@@ -397,7 +397,7 @@ CORPUS = [
      "qs": ["http://www.city.kawasaki.jp/x", "http://city.kawasaki.jp/x", "http://a.x.kawasaki.jp", "http://y.kawasaki.jp", "http://kawasaki.jp/p", "http://shop.www.ck/a/b", "http://www.ck", "http://a.ck/a"], "ql": []},
     {"kind": "history", "cfg": CONFIGS[7], "ops": [["set", "http://city.kawasaki.jp", 1], ["set", "http://x.kawasaki.jp", 2], ["set", "http://shop.www.ck", 3]],
      "qs": ["http://www.city.kawasaki.jp/x", "http://m.city.kawasaki.jp", "http://a.x.kawasaki.jp/y", "http://shop.www.ck/z", "http://www.ck"], "ql": []},
-    # FX-C12-EMPTYLABELS: suffix-aware trie, hosts with trailing dots / a lone leading dot: the empty labels are stems
+    # FX-C12-ed8ae90: suffix-aware trie, hosts with trailing dots / a lone leading dot: the empty labels are stems
     # (`a.co.uk.` and `a.co.uk` are different keys, as with suffix_aware=False)
     {"kind": "history", "cfg": CONFIGS[1], "ops": [["set", "http://a.co.uk.", 1], ["set", "http://a.co.uk", 2], ["set", "http://.co.uk/x", 3], ["set", "http://co.uk..", 4]],
      "qs": ["http://a.co.uk./x", "http://a.co.uk/x", "http://b.a.co.uk.", "http://b.a.co.uk", "http://.co.uk/x/y", "http://co.uk/x", "http://co.uk../z", "http://co.uk."], "ql": []},
